@@ -380,7 +380,9 @@ Definition ren_get (ren : list (chan * chan)) (c : chan) : chan := match alookup
 Fixpoint pt_chans (p : pt) : list chan :=
   match p with
   | PAtom _ _ _ chs => map fst chs
-  | PSeq _ _ subs => match subs with [] => [] | s :: _ => pt_chans s end
+  | PSeq _ _ subs =>      (* all subtemplates define the same channels; an unrolled empty ForLoopPT has no body left *)
+      (fix first (l : list pt) : list chan :=
+         match l with [] => [] | s :: r => match pt_chans s with [] => first r | cs => cs end end) subs
   | PRep _ _ _ b => pt_chans b
   | PMap _ ren s => map (ren_get ren) (pt_chans s)
   | PPar _ ov s => cunion (pt_chans s) (map fst ov)
